@@ -7,7 +7,8 @@ at a chosen instant of a caching run without taking the harness with it.
 The implementation is driven ONLY through its public entry points
 (`mxlpy.parallel.parallelise`, `mxlpy.scan.steady_state/time_course`); the instants at which a
 process can die are made observable by wrapping the OS-facing primitives the cache code may use
-(`io.open`/`builtins.open` as used by `Path.open`, `os.replace/rename/unlink/mkdir/open/fsync/link`)
+(`io.open`/`builtins.open` as used by `Path.open`, `os.replace/rename/unlink/mkdir/open/write/fsync/link/
+sendfile/copy_file_range/truncate`)
 for paths under the scenario's cache directory only.  The wrappers are protocol agnostic: they know
 nothing about how `_pickle_save` is written.  Files opened for writing are opened UNBUFFERED, so the
 bytes on disk at the crash instant are exactly the bytes written so far.
@@ -39,6 +40,10 @@ _os_remove = os.remove
 _os_mkdir = os.mkdir
 _os_fsync = os.fsync
 _os_link = os.link
+_os_sendfile = getattr(os, "sendfile", None)
+_os_cfr = getattr(os, "copy_file_range", None)
+_os_truncate = os.truncate
+_os_ftruncate = os.ftruncate
 
 CACHE_DIR: str | None = None
 PLAN: dict | None = None
@@ -201,6 +206,45 @@ def _link(src, dst, **kw):
     return _os_link(src, dst, **kw)
 
 
+def _sendfile(out_fd, in_fd, *a, **kw):
+    r = _rel(out_fd)
+    if r is not None:
+        _event("sendfile", r)
+    return _os_sendfile(out_fd, in_fd, *a, **kw)
+
+
+def _cfr(src, dst, *a, **kw):
+    r = _rel(dst)
+    if r is not None:
+        _event("sendfile", r)
+    return _os_cfr(src, dst, *a, **kw)
+
+
+def _oswrite(fd, data):
+    r = _rel(fd)
+    if r is not None:
+        b = bytes(data)
+        j = _event("write", r, len(b))
+        if j is not None:
+            _os_write(fd, b[:j])
+            _crash()
+    return _os_write(fd, data)
+
+
+def _truncate(path, length):
+    r = _rel(path)
+    if r is not None:
+        _event("truncate", r)
+    return _os_truncate(path, length)
+
+
+def _ftruncate(fd, length):
+    r = _rel(fd)
+    if r is not None:
+        _event("truncate", r)
+    return _os_ftruncate(fd, length)
+
+
 def install() -> None:
     io.open = _open
     builtins.open = _open
@@ -212,6 +256,13 @@ def install() -> None:
     os.open = _osopen
     os.fsync = _fsync
     os.link = _link
+    os.write = _oswrite
+    os.truncate = _truncate
+    os.ftruncate = _ftruncate
+    if _os_sendfile is not None:
+        os.sendfile = _sendfile
+    if _os_cfr is not None:
+        os.copy_file_range = _cfr
 
 
 # ---------------------------------------------------------------------------------------
